@@ -289,23 +289,6 @@ theorem fills_exist (S : Schema) (hdet : DetS S) (hfl : FillersOK S) (hcl : Clos
 
 /-! ### surrogate pairs: no high surrogate without its low surrogate -/
 
-/-- every high surrogate unit of the text is followed by a low surrogate unit (what a Python `str` without lone
-    surrogates satisfies; `TextNode.__init__` encodes the text as UTF-16, which refuses lone surrogates) -/
-def highClosed : List Nat → Bool
-  | [] => true
-  | [a] => !isHigh a
-  | a :: b :: r => (!isHigh a || isLow b) && highClosed (b :: r)
-
-mutual
-def Node.highClosed : Node → Bool
-  | .text s _ => PM.highClosed s
-  | .leaf .. => true
-  | .elem _ _ _ k => highClosedKids k
-def highClosedKids : List Node → Bool
-  | [] => true
-  | n :: ns => n.highClosed && highClosedKids ns
-end
-
 theorem highClosed_get : ∀ (s : List Nat), highClosed s = true → ∀ i c, s[i]? = some c → isHigh c = true →
     ∃ c', s[i + 1]? = some c' ∧ isLow c' = true
   | [], _, i, c, h, _ => by simp at h
